@@ -54,6 +54,8 @@ class Interp(object):
         self.ser_hook = ser_hook  # wraps serializer functions (C13)
         self.tls = threading.local()
         self.after_api = None  # called after every eliot API call that returned (C11 acknowledgements)
+        self.allow_defer = False  # run remote nodes marked "defer" only after the whole program (parent already finished)
+        self.deferred = []
 
     # ----------------------------------------------------------------- bookkeeping
     def count(self, key, n=1):
@@ -134,6 +136,11 @@ class Interp(object):
     def run(self, program):
         """Run a whole program from a context with no current action."""
         self.exec_children(program, None, None, top=True)
+        while self.deferred:
+            # continuations of serialized ids whose originating actions have long finished
+            job = self.deferred.pop(0)
+            self.count("remote:deferred")
+            job()
         return self.forest
 
     def exec_children(self, children, gt_children, cur, top=False):
@@ -485,7 +492,15 @@ class Interp(object):
                     return
                 self._run_remote_action(node, gt, action, expect_outer)
 
-            self._dispatch(via, remote, cur)
+            if node.get("defer") and self.allow_defer and via != "fork":
+                def later():
+                    self._seq = getattr(self, "_seq", 0) + 1
+                    gt["seq"] = self._seq  # its first message is emitted only now
+                    gt["deferred"] = True
+                    self._dispatch(via, remote, None)
+                self.deferred.append(later)
+            else:
+                self._dispatch(via, remote, cur)
         else:
             holder = {}
 
